@@ -46,6 +46,8 @@ func c17(tier string) []*explore.Scenario {
 	for step := 0; step <= 4; step++ {
 		out = append(out, c17Shutdown(step, bound))
 	}
+	// the same failures with a proxy that was given no disconnect callback
+	out = append(out, withoutDisconnectCallback(pickScenarios(out, "bad-peer/dial-error", "bad-peer/failing-writer", "bad-peer/failing-reader", "dead-on-attach/traffic=1", "reattach/after-old-fails", "opseq/")...)...)
 	return out
 }
 
@@ -291,7 +293,9 @@ func c17BadPeer(role string, bound int) *explore.Scenario {
 					}
 				}
 				if n < 1 {
-					vsched.Fail(fam+"|no-disconnect-report", "connection c failed (%s) but the disconnect callback was not called for it (%v)", role, t.Disconnects)
+					if t.HasCallback { // (without a disconnect callback there is nothing to be told; the removal clauses still apply)
+						vsched.Fail(fam+"|no-disconnect-report", "connection c failed (%s) but the disconnect callback was not called for it (%v)", role, t.Disconnects)
+					}
 				}
 			}
 			for _, d := range t.Disconnects {
@@ -392,7 +396,9 @@ func c17Reattach(prop, when string, bound int) *explore.Scenario {
 				}
 			}
 			if nd < 1 {
-				vsched.Fail(fam+"|no-disconnect-report", "the failed old connection of b was never reported")
+				if t.HasCallback { // (without a disconnect callback there is nothing to be told; the removal clauses still apply)
+					vsched.Fail(fam+"|no-disconnect-report", "the failed old connection of b was never reported")
+				}
 			}
 		},
 	}
@@ -499,7 +505,9 @@ func c17DeadOnAttach(traffic, bound int) *explore.Scenario {
 			nd := countStr(t.Disconnects, "c")
 			vsched.Obs("traffic=%d: delivered to re-dialled c=%d dialed=%v disconnects=%v", traffic, n, t.Dialed, t.Disconnects)
 			if nd < 1 {
-				vsched.Fail(fam+"|no-disconnect-report", "c's connection failed at attach but was never reported")
+				if t.HasCallback { // (without a disconnect callback there is nothing to be told; the removal clauses still apply)
+					vsched.Fail(fam+"|no-disconnect-report", "c's connection failed at attach but was never reported")
+				}
 			}
 			if n != 1 {
 				vsched.Fail(fam+"|dead-connection-kept", "c attached with a connection that failed at once (reported %d times); a later envelope for c reached a fresh connection %d times (dialled %v): the dead connection still occupies the name", nd, n, t.Dialed)
@@ -701,7 +709,9 @@ func c17OpSeq(prop string, first, maxLen int) *explore.Scenario {
 				}
 				for _, n := range []string{"b", "c"} {
 					if got := countStr(t.Disconnects, n); got < fails[n] {
-						vsched.Fail(fam+"|no-disconnect-report", "after%s: %d connections of %s have failed, %d reports reached the disconnect callback", seq, fails[n], n, got)
+						if t.HasCallback { // (without a disconnect callback there is nothing to be told; the removal clauses still apply)
+							vsched.Fail(fam+"|no-disconnect-report", "after%s: %d connections of %s have failed, %d reports reached the disconnect callback", seq, fails[n], n, got)
+						}
 						return
 					}
 				}
